@@ -3,7 +3,7 @@
 # usage: try_seed_alt.sh <scratch dir> <patch> <ids...>
 wt=$1; patch=$2; shift 2
 [ -d $wt ] || git -C /repo worktree add -q --detach $wt HEAD
-git -C $wt checkout -q --detach $(git -C /repo rev-parse HEAD); git -C $wt checkout -q -- .; git -C $wt clean -qfd -e target
+git -C $wt reset -q --hard; git -C $wt checkout -q --detach $(git -C /repo rev-parse HEAD); git -C $wt reset -q --hard; git -C $wt clean -qfd -e target
 (cd $wt && (git apply $patch 2>/dev/null || git apply --3way $patch 2>/dev/null || patch -s -p1 -F3 < $patch)) || { echo "PATCH DOES NOT APPLY"; exit 1; }
 (cd $wt && git diff --stat | tail -1)
 for id in "$@"; do
